@@ -48,11 +48,11 @@ def IsValidDataType(str_val, data_type, charset='B', icvn='00401'):
             if not_match_re('ID', str_val, charset, icvn):
                 raise IsValidError
         elif data_type == 'RD8':
-            if '-' in str_val:
-                (start, end) = str_val.split('-')
-                return IsValidDataType(start, 'D8', charset) and IsValidDataType(end, 'D8', charset)
-            else:
-                return False
+            parts = str_val.split('-')
+            if len(parts) != 2:
+                return False  # a date range is exactly two dates joined by one hyphen
+            (start, end) = parts
+            return IsValidDataType(start, 'D8', charset) and IsValidDataType(end, 'D8', charset)
         elif data_type in ('DT', 'D8', 'D6'):
             if not is_valid_date(data_type, str_val):
                 raise IsValidError
